@@ -158,6 +158,9 @@ func record(d *m.Design, meth *m.Method, c *caseRec) {
 	if oracle.HasBoundary(c.Payload) {
 		stats.Class("payload-boundary-value")
 	}
+	if strings.Contains(c.Payload.Canon(), "union(") {
+		stats.Class("payload-has-union")
+	}
 }
 
 func keys(m map[string]bool) []string {
